@@ -42,7 +42,12 @@ let parse_cfg (ds : string) (ps : string) : xcfg =
   { xc_cfg = { c_ports = ports; c_devs = devs }; xc_veto = vetof;
     xc_puni = pref 5; xc_pprio = pref 6; xc_pmode = pref 7 }
 
-let parse_op (s : string) : xop =
+let rec parse_op (s : string) : yop =
+  match String.split_on_char '.' s with
+  | ["F"; n; c] -> YFrame (n_of_string n, ni c)
+  | ["H"] -> YHousekeeping
+  | _ -> YX (parse_xop s)
+and parse_xop (s : string) : xop =
   match String.split_on_char '.' s with
   | ["R"; d] -> XRegister (ni d)
   | ["N"; d] -> XUnregister (ni d)
@@ -125,7 +130,8 @@ let handle (payload : string) : string =
     let c = xc.xc_cfg in
     let ops = if os = "-" then [] else List.map parse_op (String.split_on_char ',' os) in
     let b = Buffer.create 1024 in
-    let x = ref (xinit xc) in
+    let y = ref (yinit xc) in
+    let x = ref !y.y_x in
     let tags = Hashtbl.create 8 in
     let tag t = Hashtbl.replace tags t () in
     Buffer.add_string b ("d=" ^ dump c !x.x_s ^ ";p=" ^ prio_s c !x.x_s);
@@ -134,7 +140,7 @@ let handle (payload : string) : string =
       if not !dead then begin
         let s = !x.x_s in
         (* classify what this op exercises *)
-        (match o with
+        (match (match o with YX xo -> xo | YFrame (n, cl) -> XBase (SrcAdd (n, cl)) | YHousekeeping -> XBase GC) with
          | XBase (Patch (p, n)) ->
            (match port_of c s p with
             | None -> tag "nullport"
@@ -160,16 +166,19 @@ let handle (payload : string) : string =
          | XUnregister _ | XUnregisterAll -> tag "unregister"
          | XSvcUnregister (n, _) -> if sfind n s.s_store = None then tag "svcunreg-missing"
          | _ -> ());
-        match xstep xc !x o with
-        | XDangling -> dead := true; Buffer.add_string b (Printf.sprintf ";r%d=MODEL-DANGLING" k)
-        | XOk (x', r) ->
+        (match o with YFrame _ -> tag "frame" | YHousekeeping -> tag "housekeeping" | _ -> ());
+        match ystep xc !y o with
+        | YDangling -> dead := true; Buffer.add_string b (Printf.sprintf ";r%d=MODEL-DANGLING" k)
+        | YOk (y', r) ->
           (match r with RSaved (_ :: _) -> tag "gc" | _ -> ());
-          let r = match o with XSvcRegister _ | XSvcUnregister _ -> RUnit | _ -> r in
-          x := x';
-          Buffer.add_string b (Printf.sprintf ";r%d=%s;d%d=%s;c%d=%s;b%d=%s;f%d=%s;p%d=%s" k (res_s r) k (dump c x'.x_s)
+          let x' = y'.y_x in
+          let r = match o with YX (XSvcRegister _) | YX (XSvcUnregister _) -> RUnit | _ -> r in
+          let rs = match o, r with YFrame _, RUnit -> "missing" | YFrame _, _ -> "-" | _ -> res_s r in
+          y := y'; x := x';
+          Buffer.add_string b (Printf.sprintf ";r%d=%s;d%d=%s;c%d=%s;b%d=%s;f%d=%s;p%d=%s" k rs k (dump c x'.x_s)
                                  k (cands x'.x_s) k (broker_s c x') k (prefs_s c x') k (prio_s c x'.x_s))
       end) ops;
-    let order = ["vetounpatch"; "vetostate"; "vetorepatch"; "vetofresh"; "register"; "unregister"; "svcunreg-missing";
+    let order = ["housekeeping"; "frame"; "vetounpatch"; "vetostate"; "vetorepatch"; "vetofresh"; "register"; "unregister"; "svcunreg-missing";
                  "loop"; "multi"; "gc"; "stop"; "repatch"; "nullport"] in
     let prim = match List.filter (fun t -> t <> "gc" && Hashtbl.mem tags t) order with t :: _ -> t | [] -> "plain" in
     let cls = prim ^ (if Hashtbl.mem tags "gc" then "+collect" else "") in
